@@ -67,7 +67,9 @@ func (w *webhookExecutorEtag) adjustResponse(
 	if request.Header.Get(headerIfNoneMatch) != "" && (response.StatusCode == http.StatusNotModified || response.StatusCode == http.StatusPreconditionFailed) {
 		logging.Logger.Info("retrieving body from cache", "cacheKey", cacheKey)
 		cacheEntry, cacheEntryExists := w.etagCache.Get(cacheKey)
-		if !cacheEntryExists {
+		// The entry may have been replaced by a concurrent call since the request
+		// was sent; only the body cached with the ETag we sent answers this 304.
+		if !cacheEntryExists || cacheEntry.Etag != request.Header.Get(headerIfNoneMatch) {
 			return nil, fmt.Errorf("cannot find cached response for cache key: %s", cacheKey)
 		}
 		return cacheEntry.Response, nil
